@@ -1,4 +1,5 @@
 import HcipyVerif.Lemmas.GridMut
+import HcipyVerif.Lemmas.GridHeap
 
 /-!
 # C10 — Grid identity: equality is an equivalence consistent with hashing
@@ -13,7 +14,12 @@ matrices are compared exactly and `hash(grid)` must equal xxh64 of the model's h
 Hypothesis used: `Coords.WF` — at least one dimension, and the columns of unstructured coordinates
 all have one length (otherwise the object is not a grid; `np.array_equal` on a ragged list is
 `False`).  The definitions model the code after the repairs D2, D24, D25, D26; the old behaviour
-is `sepEqOld` / `regHashInputOld`, with proved counterexamples at the end.
+is `sepEqOld` / `regHashInputOld`, with proved counterexamples at the end (section `Old`, documentation only).
+
+Floating point: the exact-rational statements (`shift_changes`, …) describe the code whenever the float
+arithmetic is exact; `shiftF_keeps_iff` / `shiftF_absorbed` state what happens in general (`Coords.shiftR`
+with a rounding function; binary64 = `roundF64`, tied bit for bit through the driver ops `shiftf`/`shiftedf`).
+NaN / ±inf remain outside the model (with NaN the real `==` is not reflexive).
 -/
 set_option linter.unusedSimpArgs false
 set_option linter.unusedVariables false
@@ -27,6 +33,32 @@ namespace HcipyVerif.Grid
 different lengths. -/
 theorem eq_refl (g : Grid) (h : g.coords.WF) : g.eq g = true :=
   (Grid.eq_iff h).mpr ⟨rfl, rfl⟩
+
+/-- **Reflexivity holds exactly for the grids without NaN**: with IEEE comparison (`np.array_equal`
+without `equal_nan`) a grid one of whose coordinates is NaN is *not* equal to itself (nor to its copy),
+although it can be hashed and its copy has the same hash.  This is the behaviour of the code (tied:
+driver op `eqnan` against `==` on real grids with NaN coordinates); `eq_refl` and all statements below
+are about grids with finite coordinates. -/
+theorem eq_refl_iff_no_nan (g : Grid) (h : g.coords.WF) (nan : Bool) : g.eqNaN g nan nan = true ↔ nan = false := by
+  simp [Grid.eqNaN, (Grid.eq_iff h).mpr ⟨rfl, rfl⟩]
+
+/-- … NaN on either side makes `==` false; without NaN it is `Grid.eq`; symmetric in any case. -/
+theorem eqNaN_spec (a b : Grid) (na nb : Bool) :
+    (na = true ∨ nb = true → a.eqNaN b na nb = false) ∧ a.eqNaN b false false = a.eq b ∧
+      a.eqNaN b na nb = b.eqNaN a nb na := by
+  refine ⟨?_, by simp [Grid.eqNaN], ?_⟩
+  · rintro (h | h) <;> simp [Grid.eqNaN, h]
+  · have hs : a.eq b = b.eq a := by
+      rw [Bool.eq_iff_iff]
+      constructor
+      · intro h
+        obtain ⟨h1, h2⟩ := Grid.eq_true_imp h
+        simpa [Grid.eq, h1, h2] using h
+      · intro h
+        obtain ⟨h1, h2⟩ := Grid.eq_true_imp h
+        simpa [Grid.eq, h1, h2] using h
+    simp only [Grid.eqNaN, hs]
+    cases na <;> cases nb <;> simp
 
 /-- **Symmetry** (no hypothesis). -/
 theorem eq_symm (a b : Grid) : a.eq b = b.eq a := by
@@ -64,13 +96,37 @@ theorem hashInput_collision :
 
 /-! ## Copies and round trips -/
 
-/-- **`copy()`** (and pickling, both deep copies: the fresh slot holds the same value) yields an
-equal grid with the same hash input, and the source slot is untouched. -/
-theorem copy_eq (st : Store) (g : Grid) (h : g.coords.WF) :
-    (st.push g)[st.length]? = some g ∧ g.eq g = true ∧ (∀ j, j < st.length → (st.push g)[j]? = st[j]?) := by
-  refine ⟨by simp [Store.push], eq_refl g h, ?_⟩
-  intro j hj
-  simp [Store.push, List.getElem?_append_left hj]
+/-- **Identity does not depend on the weights**: replacing the stored weights by anything (in
+particular caching the automatic weights, which reading `grid.weights` does behind the user's back)
+changes neither `==` against any grid nor the bytes fed to the hash.  (This replaces the former
+`copy_eq`, which only restated the value semantics of the model's store; that a `copy()`, a pickle or
+a dictionary round trip *is* the same value is carried by the correspondence — the `rt copy|dict|pickle`
+operations are compared through `show`, the full `==` matrix and the exact hash — and by
+`dict_roundtrip` below.) -/
+theorem eq_weights_irrelevant (g h : Grid) (w : Weights) :
+    ({ g with weights := w } : Grid).eq h = g.eq h ∧ h.eq { g with weights := w } = h.eq g ∧
+    ({ g with weights := w } : Grid).hashInput = g.hashInput := ⟨rfl, rfl, rfl⟩
+
+/-- **Materialising the weights** (`grid.weights` read for the first time, model `Grid.materialize`,
+driver op `mat`) yields a grid equal to the one before, with the same hash input. -/
+theorem materialize_eq (g g' : Grid) (hw : g.coords.WF) (h : g.materialize = some g') :
+    g'.eq g = true ∧ g.eq g' = true ∧ g'.hashInput = g.hashInput := by
+  simp only [Grid.materialize, Option.map_eq_some_iff] at h
+  obtain ⟨w, _, rfl⟩ := h
+  exact ⟨eq_refl g hw, eq_refl g hw, rfl⟩
+
+/-- … and so does scaling by one / shifting by zero, whatever happened to the weights on the way:
+`scale` materialises the weights, the identity stays. -/
+theorem scale_one_eq (g g' : Grid) (hw : g.coords.WF) (hc : g.system = .cartesian)
+    (h : g.scale (.scalar 1) = some g') : g'.eq g = true ∧ g'.hashInput = g.hashInput := by
+  simp only [Grid.scale, hc, Option.map_eq_some_iff] at h
+  obtain ⟨w, _, rfl⟩ := h
+  have hc1 : g.coords.scale (List.replicate g.coords.ndim 1) = g.coords := Coords.scale_one g.coords
+  simp only [Grid.eq, Grid.hashInput, ScaleArg.factors, hc1, hc, decide_true, Bool.true_and]
+  exact ⟨Coords.eq_self hw, trivial⟩
+
+example : ∃ g g' : Grid, g.coords.WF ∧ g.materialize = some g' ∧ g'.weights ≠ g.weights :=
+  ⟨⟨.cartesian, .regular [⟨1 / 2, 3, 0⟩], .none⟩, _, by decide, rfl, by decide⟩
 
 /-- **`Grid.from_dict(g.to_dict())` is `g`** (coordinates, system and stored weights). -/
 theorem dict_roundtrip (g : Grid) : Grid.fromDict g.toDict = some g := by
@@ -136,6 +192,18 @@ theorem scale_changes (g g' : Grid) (s : ScaleArg) (hc : g.system = .cartesian) 
     subst h
     exact ⟨ne_of_coords_ne _ _ hne, ne_of_coords_ne _ _ (Ne.symm hne)⟩
 
+/-- **Scaling a polar grid** by `k ≠ 1` changes its identity as soon as some radius is non-zero
+(`PolarGrid.scale` multiplies the radial axis by `k` and the angular axis by one). -/
+theorem polar_scale_changes (g g' : Grid) (k : Rat) (hp : g.system = .polar) (h : g.scale (.scalar k) = some g')
+    (v : Rat) (hv : g.coords.axisHas 0 v) (hv0 : v ≠ 0) (hk : k ≠ 1) : g'.eq g = false ∧ g.eq g' = false := by
+  have hne := Coords.scale_ne g.coords [k, 1] 0 v hv hv0 ⟨k, rfl, hk⟩
+  simp only [Grid.scale, hp, Option.map_eq_some_iff] at h
+  obtain ⟨w, _, rfl⟩ := h
+  exact ⟨ne_of_coords_ne _ _ hne, ne_of_coords_ne _ _ (Ne.symm hne)⟩
+
+example : ∃ g g' : Grid, g.system = .polar ∧ g.scale (.scalar 2) = some g' ∧ g.coords.axisHas 0 (1 / 2) :=
+  ⟨⟨.polar, .unstructured [[1 / 2, 3], [0, 1]], .none⟩, _, rfl, rfl, ⟨[1 / 2, 3], rfl, by simp⟩⟩
+
 /-- **Reversing** changes the identity as soon as one axis is not symmetric under reversal … -/
 theorem reverse_changes (g : Grid) (i : Nat) (h : g.coords.axisAsym i) :
     g.reverse.eq g = false ∧ g.eq g.reverse = false := by
@@ -150,6 +218,50 @@ theorem reverse_reverse_eq (g : Grid) (h : g.coords.WF) :
   simp only [Grid.eq, Grid.reverse, Bool.and_eq_true, decide_eq_true_eq, true_and]
   simp only [Grid.reverse] at this
   rw [this]; exact Coords.eq_self h
+
+/-! ### Floating point: a shift changes the identity exactly when some stored sum changes
+
+`shift_changes` above is about exact arithmetic (the rationals the correspondence feeds are dyadic,
+so that float addition is exact).  On floats `x += b` stores `fl(x + b)`; the statement that holds for
+**every** rounding function `rnd` (round-to-nearest-even binary64 is `roundF64`, executed by the driver
+ops `shiftf` / `shiftedf` and compared bit for bit with the real code) is: -/
+
+/-- **In-place float shift**: the grid stays equal to its former self iff every value the shift rewrites
+(the origin of a regular axis, every coordinate of a separated / unstructured axis) absorbs its shift,
+`fl(x + b_i) = x` — i.e. the identity changes *accordingly*: exactly when the data changes. -/
+theorem shiftF_keeps_iff (rnd : Rat → Rat) (g : Grid) (b : List Rat) (hl : b.length = g.coords.ndim) (hw : g.coords.WF) :
+    (g.shiftR rnd b).eq g = true ↔
+      ∀ i (h1 : i < g.coords.shiftVals.length) (h2 : i < b.length), ∀ x ∈ g.coords.shiftVals[i], rnd (x + b[i]) = x := by
+  rw [Grid.eq_iff (Coords.WF_shiftR rnd g.coords b hl hw)]
+  simp only [Grid.shiftR, true_and]
+  exact Coords.shiftR_eq_self_iff rnd g.coords b hl
+
+/-- … in the decidable form the driver evaluates (`absorbs i b` with `rnd = roundF64`, compared with
+`g.shifted(b) == g` / "the in-place shift left every stored value as it was" on the real code): the
+shifted grid equals the original iff the model predicts that every sum is absorbed. -/
+theorem shiftF_keeps_iff_absorbs (rnd : Rat → Rat) (g : Grid) (b : List Rat) (hl : b.length = g.coords.ndim) (hw : g.coords.WF) :
+    (g.shiftR rnd b).eq g = true ↔ g.coords.absorbs rnd b = true := by
+  rw [shiftF_keeps_iff rnd g b hl hw, Coords.absorbs_iff]
+
+/-- with exact arithmetic (`rnd = id`) the float shift is the exact shift of `shift_changes` -/
+theorem shiftF_exact (g : Grid) (b : List Rat) : g.shiftR id b = g.shift b := by
+  simp only [Grid.shiftR, Grid.shift, Coords.shiftR_id]
+
+/-- **The caveat, concretely (binary64)**: a non-zero shift below half an ulp of every coordinate is
+absorbed — the grid still equals its former self and hashes the same — whereas in exact arithmetic
+(`shift_changes`) the same shift changes the identity.  The harness replays exactly this on the real
+code (`g.shifted(2**-54) == g`, same hash). -/
+theorem shiftF_absorbed :
+    ∃ (g : Grid) (b : List Rat), g.coords.WF ∧ b = [1 / 2 ^ 54] ∧
+      (g.shiftR roundF64 b).eq g = true ∧ (g.shiftR roundF64 b).hashInput = g.hashInput ∧
+      (g.shift b).eq g = false :=
+  ⟨⟨.cartesian, .separated [[1, 2, -3 / 2]], .none⟩, _, by decide, rfl, by decide +kernel, by decide +kernel,
+    by decide +kernel⟩
+
+/-- … and a shift of a whole ulp is not: the float model agrees with the exact one there -/
+theorem shiftF_not_absorbed :
+    (Grid.shiftR roundF64 [1 / 2 ^ 52] ⟨.cartesian, .regular [⟨1 / 2, 3, 1⟩], .none⟩).eq
+      ⟨.cartesian, .regular [⟨1 / 2, 3, 1⟩], .none⟩ = false := by decide +kernel
 
 example : (Coords.separated [[0, 1], [5]]).axisHas 0 1 := ⟨[0, 1], rfl, by simp⟩
 example : (Coords.regular [⟨1 / 2, 3, 0⟩]).axisAsym 0 := ⟨⟨1 / 2, 3, 0⟩, rfl, by norm_num⟩
@@ -240,20 +352,137 @@ theorem shared_delta_zero_acts_once (v : Rat) (n : Nat) (f b : Rat) :
     (Coords.regular [⟨v, n, v⟩]).scale [f] = .regular [⟨v * f, n, v * f⟩] ∧
     (Coords.regular [⟨v, n, v⟩]).shift [b] = .regular [⟨v, n, v + b⟩] := ⟨rfl, rfl⟩
 
-/-! ## The code before the repairs -/
+/-! ## Reference semantics: why "copies are untouched" holds, and when it would not
+
+The store of `Model/GridOps.lean` has value semantics, so the frame statements above (`stepStore_frame`,
+`copies_untouched_*`) restate a modelling decision.  The statements below are about the **reference
+model** of `Model/GridHeap.lean` (arrays in a heap, objects holding references, in-place operations
+writing through them), in which aliasing *can* happen: they say that it does not, as long as construction
+and `copy()` allocate (`Sep`, kept by every operation), and that it does as soon as one of them keeps a
+reference (`Bad.*`).  Tie: the driver runs this model (`ref …` requests) on the same histories; the
+harness compares the values every object sees and the number of shared arrays (`np.shares_memory`
+over all arrays of all live grids and the caller's arrays). -/
+
+/-- the invariant holds initially and is kept by every operation of the reference model -/
+theorem ref_sep_invariant (w : RWorld) (hs : w.Sep) (a : List (List Rat)) (refs : List Nat) (i : Nat) (ops : List ArrOp) :
+    RWorld.Sep {} ∧ (w.new a).Sep ∧ (w.construct refs).Sep ∧ (w.copy i).Sep ∧ (w.inplace i ops).Sep ∧ (w.copied i ops).Sep :=
+  ⟨by decide, w.Sep_new hs a, w.Sep_construct hs refs, w.Sep_construct hs _, w.Sep_inplace hs i ops,
+    RWorld.Sep_inplace _ (w.Sep_construct hs _) _ _⟩
+
+/-- **every world the driver can reach satisfies the invariant**: whatever sequence of `ref …` requests
+(`stepRef`, the function the driver executes; rejected requests leave the world as it is) is run from a
+world satisfying `Sep` — in particular from the empty one after `ref reset`. -/
+theorem ref_reachable_sep (reqs : List (List String)) (w : RWorld) (hs : w.Sep) :
+    (reqs.foldl (fun w toks => match stepRef w toks with | some (w', _) => w' | none => w) w).Sep := by
+  induction reqs generalizing w with
+  | nil => exact hs
+  | cons t ts ih =>
+    simp only [List.foldl_cons]
+    apply ih
+    cases h : stepRef w t with
+    | none => exact hs
+    | some r => exact stepRef_sep w r.1 t r.2 hs (by rw [h])
+
+/-- **an in-place operation (`scale`, `shift`) changes the value of its target only — every other live
+grid, earlier copies and the caller's arrays included, reads the same values as before — and on the
+target every array is acted on exactly once** -/
+theorem ref_inplace_only_target (w : RWorld) (hs : w.Sep) (i : Nat) (hi : i < w.objs.length) (ops : List ArrOp)
+    (hl : ops.length = (w.objs[i]).refs.length) :
+    (w.inplace i ops).abs = w.abs.set i (List.zipWith (fun op a => op.apply a) ops (w.objs[i].val w.heap)) :=
+  w.abs_inplace hs i hi ops hl
+
+/-- **`copy()` / construction from arrays held elsewhere**: one more object with the same values; nothing else
+changes; and a later in-place operation on the source does not reach the copy. -/
+theorem ref_copy_independent (w : RWorld) (hs : w.Sep) (i : Nat) (hi : i < w.objs.length) (ops : List ArrOp)
+    (hl : ops.length = (w.objs[i]).refs.length) :
+    (w.copy i).abs = w.abs ++ [w.objs[i].val w.heap] ∧
+    ((w.copy i).inplace i ops).abs =
+      w.abs.set i (List.zipWith (fun op a => op.apply a) ops (w.objs[i].val w.heap)) ++ [w.objs[i].val w.heap] := by
+  have hget : w.objs.getD i ⟨[]⟩ = w.objs[i] := by simp [List.getD_eq_getElem?_getD, hi]
+  have hget' : w.objs[i]?.getD ⟨[]⟩ = w.objs[i] := by simp [hi]
+  have hc : (w.copy i).abs = w.abs ++ [w.objs[i].val w.heap] := by
+    have := w.abs_alloc hs (RObj.val w.heap w.objs[i])
+    simpa [RWorld.copy, RWorld.construct, RObj.deepCopy, RObj.val, hget, hget'] using this
+  refine ⟨hc, ?_⟩
+  have hs' : (w.copy i).Sep := w.Sep_construct hs _
+  have hi' : i < (w.copy i).objs.length := by simp [RWorld.copy, RWorld.construct]; omega
+  have hobj : (w.copy i).objs[i] = w.objs[i] := by simp [RWorld.copy, RWorld.construct, List.getElem_append_left hi]
+  have hval : (w.copy i).objs[i].val (w.copy i).heap = w.objs[i].val w.heap := by
+    rw [hobj]
+    exact w.val_grow hs.1 _ _ (List.getElem_mem hi)
+  rw [(w.copy i).abs_inplace hs' i hi' ops (by rw [hobj]; exact hl), hc, hval]
+  have : i < w.abs.length := by simpa [RWorld.abs] using hi
+  rw [List.set_append_left _ _ this]
+
+/-- **the non-mutating forms (`scaled`, `shifted`)**: a new object holding the transformed values; every
+existing object, the source included, untouched. -/
+theorem ref_copied_independent (w : RWorld) (hs : w.Sep) (i : Nat) (hi : i < w.objs.length) (ops : List ArrOp)
+    (hl : ops.length = (w.objs[i]).refs.length) :
+    (w.copied i ops).abs = w.abs ++ [List.zipWith (fun op a => op.apply a) ops (w.objs[i].val w.heap)] := by
+  have hget : w.objs.getD i ⟨[]⟩ = w.objs[i] := by simp [List.getD_eq_getElem?_getD, hi]
+  have hget' : w.objs[i]?.getD ⟨[]⟩ = w.objs[i] := by simp [hi]
+  have hc := (ref_copy_independent w hs i hi ops hl).1
+  have hs' : (w.copy i).Sep := w.Sep_construct hs _
+  have hn : w.objs.length < (w.copy i).objs.length := by simp [RWorld.copy, RWorld.construct]
+  have hobj : (w.copy i).objs[w.objs.length] = ⟨List.range' w.heap.length (w.objs[i]).refs.length⟩ := by
+    simp [RWorld.copy, RWorld.construct, RObj.deepCopy, hget, hget']
+  have hval : (w.copy i).objs[w.objs.length].val (w.copy i).heap = w.objs[i].val w.heap := by
+    have := RObj.deepCopy_val w.heap w.objs[i]
+    rw [hobj]
+    simpa [RWorld.copy, RWorld.construct, RObj.deepCopy, hget, hget'] using this
+  unfold RWorld.copied
+  rw [(w.copy i).abs_inplace hs' _ hn ops (by rw [hobj]; simpa using hl), hc, hval]
+  have : w.objs.length = w.abs.length := by simp [RWorld.abs]
+  rw [this, List.set_append_right _ _ (le_refl _)]
+  simp
+
+/-- **a copy that keeps the references aliases**: after `Bad.copy` an in-place operation on the source
+changes what the "copy" reads (and `Sep` fails) -/
+theorem Bad.copy_aliases :
+    ∃ w : RWorld, w.Sep ∧ ¬ (Bad.copy w 0).Sep ∧
+      ((Bad.copy w 0).inplace 0 [.mulS 2]).abs = [[[2, 4]], [[2, 4]]] ∧ ((w.copy 0).inplace 0 [.mulS 2]).abs = [[[2, 4]], [[1, 2]]] :=
+  ⟨RWorld.new {} [[1, 2]], by decide, by decide, by decide +kernel, by decide +kernel⟩
+
+/-- **a constructor that keeps the caller's array** (the defect repaired by D3/D4/D83): scaling the
+grid in place changes the caller's array; with one array passed for two axes the grid's own axes move
+twice. -/
+theorem Bad.construct_aliases :
+    ((Bad.construct (RWorld.new {} [[1, 2]]) [0, 0]).inplace 1 [.mulS 2, .mulS 2]).abs = [[[4, 8]], [[4, 8], [4, 8]]] ∧
+    (((RWorld.new {} [[1, 2]]).construct [0, 0]).inplace 1 [.mulS 2, .mulS 2]).abs = [[[1, 2]], [[2, 4], [2, 4]]] :=
+  ⟨by decide +kernel, by decide +kernel⟩
+
+/-- the array operations of the reference model are the coordinate arithmetic of the value model:
+separated / unstructured coordinates multiply (add to) array `k` by `f_k`; regular coordinates
+multiply `delta` and `zero` elementwise (add to `zero`) -/
+theorem ref_ops_are_coords_ops (a : List (List Rat)) (f b : List Rat) (r : List RegAxis) :
+    (Coords.separated a).scale f = .separated (List.zipWith (fun (op : ArrOp) x => op.apply x) (f.map ArrOp.mulS) a) ∧
+    (Coords.unstructured a).shift b = .unstructured (List.zipWith (fun (op : ArrOp) x => op.apply x) (b.map ArrOp.addS) a) ∧
+    (match (Coords.regular r).scale f with
+      | .regular r' => r'.map (·.delta) = ArrOp.apply (.mulV f) (r.map (·.delta)) ∧ r'.map (·.zero) = ArrOp.apply (.mulV f) (r.map (·.zero))
+      | _ => False) := by
+  refine ⟨?_, ?_, ?_⟩
+  · simp only [Coords.scale, Coords.separated.injEq, List.zipWith_map_left, ArrOp.apply]
+    rw [List.zipWith_comm]
+  · simp only [Coords.shift, Coords.unstructured.injEq, List.zipWith_map_left, ArrOp.apply]
+    rw [List.zipWith_comm]
+  · simp only [Coords.scale, ArrOp.apply, List.map_zipWith, List.zipWith_map_left]
+    exact ⟨trivial, trivial⟩
+
+/-! ## Old — the code before the repairs (documentation of D2 / D24; code that no longer exists in /repo:
+not evidence for the property) -/
 
 /-- D2: with the old `SeparatedCoords.__eq__` a separated grid with unequal axis lengths is not equal
 to itself. -/
-theorem eqOld_not_refl : ∃ g : Grid, g.coords.WF ∧ g.eqOld g = false :=
+theorem Old.eq_not_refl : ∃ g : Grid, g.coords.WF ∧ g.eqOld g = false :=
   ⟨⟨.cartesian, .separated [[0, 1, 2], [0, 1]], .none⟩, by decide, by decide⟩
 
 /-- … while on rectangular separated grids old and new comparison agree. -/
-theorem sepEqOld_eq_of_rect (a b : List (List Rat)) (ha : rect a = true) (hb : rect b = true) :
+theorem Old.sepEq_eq_of_rect (a b : List (List Rat)) (ha : rect a = true) (hb : rect b = true) :
     sepEqOld a b = allZip arrEq a b := by simp [sepEqOld, ha, hb]
 
 /-- D24: the old hash fed dtype-dependent bytes: an integer-typed and a float-typed regular grid
 compare equal but hash differently. -/
-theorem hashOld_int_float :
+theorem Old.hash_int_float :
     ∃ a b : List RegAxisOld, regEqOld a b = true ∧ regHashInputOld a ≠ regHashInputOld b :=
   ⟨[⟨⟨1, true⟩, 4, ⟨0, true⟩⟩], [⟨⟨1, false⟩, 4, ⟨0, false⟩⟩], by decide, by decide⟩
 
